@@ -60,6 +60,10 @@ def run(ctx: Context) -> None:
     # by the same sample_batch (shared with C12) - anything else slipped into the batch is neither a pool candidate nor a displaced best point
     from . import c12
     ctx.rule(c12.sample_rules)
+    # "displaced by between 1 and perturbation_range-1 precision steps": the shocks are multiples of the precision, and the result is a lattice point
+    # `steps` away only if consecutive grid values differ by exactly the precision (grid constructor rule of C15)
+    from . import c03
+    ctx.rule(c03.grid_within_bounds)
 
 
 def r1_no_mutation(ctx: Context) -> None:
